@@ -54,7 +54,9 @@ let pcr_step a =
       int_of_z (sch_next_units_after (q_of_frac now 1) (ty = 0) (q_of_frac !pcr_ci4 4) (q_of_frac !pcr_ri4 4) (z_of_int !pcr_off))
     else !pcr_ci4 * 2500 in
   (res, ty, units)
-let op_sch_cnew a = pcr_new a; pcr_running := false; pcr_inflight := None
+let pcr_remote = ref 0   (* 0 local, 1 command_endpoint not connected, 2 connected *)
+let op_sch_cnew a = pcr_new a; pcr_running := false; pcr_inflight := None;
+  pcr_remote := (if num a "remote" 0 <> 0 then (if num a "conn" 0 <> 0 then 2 else 1) else 0)
 let op_sch_cr a =
   let (res, ty, units) = pcr_step a in
   if res = 0 then emit (Printf.sprintf "pcr res=%d ty=%d next=%d" res ty units)
@@ -63,6 +65,17 @@ let op_sch_exec a =
   let now = num a "now" 2000000000 in
   (* before_check = now; early UpdateNextCheck; optionally a passive result lands in the window before the test-and-set *)
   if has a "race" then ignore (pcr_result (now + 1) (now + 1) (num a "race" 0));
+  if !pcr_remote <> 0 && not !pcr_running then begin
+    (* command_endpoint branch (SchATaskRemote): nothing runs here; connected: next_check = now + command timeout (60) + 30;
+       not connected (outside the cold-start window): UNKNOWN "not connected" goes through ProcessCheckResult; either way
+       m_CheckRunning is released before ExecuteCheck returns *)
+    if !pcr_remote = 2 then emit "exec remote conn=1 next=900000"
+    else begin
+      let (res, ty) = pcr_result now now 3 in
+      let units = int_of_z (sch_next_units_after (q_of_frac now 1) (ty = 0) (q_of_frac !pcr_ci4 4) (q_of_frac !pcr_ri4 4) (z_of_int !pcr_off)) in
+      emit (Printf.sprintf "exec remote conn=0 got=%d ty=%d next=%d" (if res = 0 then 1 else 0) ty units)
+    end
+  end else
   if !pcr_running then emit "exec started=0"
   else begin pcr_running := true; pcr_inflight := Some now; emit "exec started=1" end
 let op_sch_finish a =
@@ -72,6 +85,171 @@ let op_sch_finish a =
     pcr_inflight := None;
     let (res, _) = pcr_result (num a "now" 2000000000) st (num a "state" 0) in
     emit (Printf.sprintf "fin res=%d" res)
+
+(* ---------------- timelines (family tl) ----------------
+   The same script steps on the extracted step function [sch_exec]: every environment action of a step is applied, then
+   the model is driven by a canonical schedule (scheduler first, then pool tasks, then asynchronous results whose gate is
+   open; the clock only moves to make the head of the index due) until it is STABLE in the same sense as the harness:
+   no callback under way, no forced or regular check owed that has a free slot, no ungated execution in flight.
+   The guard-return cycles of a checkable that is due again while its check is still in flight change nothing that is
+   printed and are not simulated unless the dispatch is a forced one (it consumes force_next_check). *)
+let rec sch_nat_of_int n = if n <= 0 then O else S (sch_nat_of_int (n - 1))
+let rec sch_int_of_nat = function O -> 0 | S n -> 1 + sch_int_of_nat n
+
+type tl_model = {
+  mutable tst : sch_state; tn : int; tmax : int; tiv : int;
+  tkind : bool array;   (* true = asynchronous *)
+  tgate : bool array;   (* open *)
+  tstarts : int array; tdones : int array; tclears : int array;
+  mutable tstep : int;
+  mutable tev : sch_ev list; mutable tfev : sch_fev list;   (* newest first *)
+}
+let tl_cur : tl_model option ref = ref None
+
+let tl_do m a =
+  match sch_exec m.tst a with
+  | Some s' ->
+    List.iter (fun e -> (match e with SchEvStart c -> let c = int_of_z c in m.tstarts.(c) <- m.tstarts.(c) + 1 | _ -> ()); m.tev <- e :: m.tev) (sch_observe m.tst a);
+    List.iter (fun e -> (match e with SchFClear c -> let c = int_of_z c in m.tclears.(c) <- m.tclears.(c) + 1 | _ -> ()); m.tfev <- e :: m.tfev) (sch_fobserve m.tst a);
+    m.tst <- s'
+  | None -> failwith "tl: model step not enabled"
+let tl_ck m c = m.tst.sch_cks (sch_nat_of_int c)
+let tl_clock m = int_of_z m.tst.sch_clock
+let tl_in l c = sch_mem (sch_nat_of_int c) l
+let tl_free m = int_of_z m.tst.sch_pcount < m.tmax
+let tl_wanted m c =
+  let k = tl_ck m c in
+  tl_in m.tst.sch_idle c && tl_free m && (k.sch_force || (k.sch_enable && k.sch_period && not k.sch_running))
+
+(* pool side of the canonical schedule: callbacks, then asynchronous results whose gate is open; false = nothing to do *)
+let tl_progress_pool m =
+  let st = m.tst in
+  let after = z_of_int (tl_clock m + m.tiv) in
+  let task = List.find_opt (fun (c, pc) ->
+    match pc with
+    | SchTRunning -> let c = sch_int_of_nat c in m.tkind.(c) || m.tgate.(c)
+    | _ -> true) st.sch_tasks in
+  match task with
+  | Some (c, SchTQueued) -> tl_do m (SchATaskUpdate (c, after)); true
+  | Some (c, SchTUpdated) -> tl_do m (SchATaskTas c); true
+  | Some (c, SchTRunning) ->
+    let ci = sch_int_of_nat c in
+    if m.tkind.(ci) then tl_do m (SchATaskLaunch c)
+    else begin tl_do m (SchATaskResult (c, after)); m.tdones.(ci) <- m.tdones.(ci) + 1 end; true
+  | Some (c, SchTReturned) -> tl_do m (SchATaskDecrease c); true
+  | Some (c, SchTDecr) -> tl_do m (SchATaskFinish c); true
+  | None ->
+    (match List.find_opt (fun c -> m.tgate.(sch_int_of_nat c)) st.sch_fdone, List.find_opt (fun c -> m.tgate.(sch_int_of_nat c)) st.sch_flights with
+     | Some c, _ -> tl_do m (SchAFlightResult (c, after)); let ci = sch_int_of_nat c in m.tdones.(ci) <- m.tdones.(ci) + 1; true
+     | None, Some c -> tl_do m (SchAFlightDone c); true
+     | None, None -> false)
+
+(* one canonical step; false = nothing to do (stable) *)
+let tl_progress m =
+  let st = m.tst in
+  let after = z_of_int (tl_clock m + m.tiv) in
+  match st.sch_pc with
+  | SchSHold (c, f) ->
+    let k = st.sch_cks c in
+    if f || (k.sch_reach && k.sch_enable && k.sch_period) then tl_do m SchADispatch
+    else begin tl_do m SchASkip; tl_do m (SchASetNext (c, after)); tl_do m (SchANextCheckChanged c) end; true
+  | SchSPostA _ -> tl_do m SchAClearForce; true
+  | SchSPostB _ -> tl_do m SchAIncrease; true
+  | SchSPostC _ -> tl_do m SchAEnqueue; true
+  | SchSIdle ->
+    if tl_progress_pool m then true
+    else if not (List.exists (fun c -> tl_wanted m c) (List.init m.tn (fun i -> i))) then false
+    else begin
+      (* head of the next-check index *)
+      let head = List.fold_left (fun acc (c, k) -> match acc with
+        | Some (_, k0) when int_of_z k0 <= int_of_z k -> acc
+        | _ -> Some (c, k)) None st.sch_idle in
+      match head with
+      | None -> false
+      | Some (c, k) ->
+        if int_of_z k > tl_clock m then tl_do m (SchATick (z_of_int (int_of_z k - tl_clock m)));
+        tl_do m (SchAPick c); true
+    end
+let tl_settle m =
+  let n = ref 0 in
+  while tl_progress m do incr n; if !n > 5000 then failwith "tl: model does not settle (free-running checkable in the script?)" done
+
+let tl_line m =
+  let b = Buffer.create 80 in
+  Buffer.add_string b (Printf.sprintf "tl %d pc=%d" m.tstep (int_of_z m.tst.sch_pcount));
+  for c = 0 to m.tn - 1 do
+    let k = tl_ck m c in
+    let w = if tl_in m.tst.sch_idle c then (if tl_in m.tst.sch_pend c then 'B' else 'i') else if tl_in m.tst.sch_pend c then 'p' else '-' in
+    Buffer.add_string b (Printf.sprintf " c%d:s=%d,d=%d,cl=%d,f=%d,w=%c" c m.tstarts.(c) m.tdones.(c) m.tclears.(c) (if k.sch_force then 1 else 0) w)
+  done;
+  Buffer.contents b
+let tl_emit_to m (sink : string -> unit) = tl_settle m; sink (tl_line m); m.tstep <- m.tstep + 1
+
+let tl_new a sink =
+  let n = num a "n" 1 and maxc = num a "max" 2 and iv = num a "iv" 150 in
+  let kinds = str a "kinds" "s" and gates = str a "gates" "c" in
+  let m = { tst = sch_init (fun _ -> true) (fun _ -> z_of_int 0) (z_of_int maxc); tn = n; tmax = maxc; tiv = iv;
+            tkind = Array.init n (fun c -> c < String.length kinds && kinds.[c] = 'a');
+            tgate = Array.init n (fun c -> c < String.length gates && gates.[c] = 'o');
+            tstarts = Array.make n 0; tdones = Array.make n 0; tclears = Array.make n 0; tstep = 0; tev = []; tfev = [] } in
+  for c = 0 to n - 1 do
+    let cn = sch_nat_of_int c in
+    (* object created active and paused, enable_active_checks = false; Checkable::Start puts next_check somewhere into the first interval *)
+    tl_do m (SchASetEnv (cn, false, true, true));
+    tl_do m (SchASetNext (cn, z_of_int (1 + c)));
+    tl_do m (SchASetActive (cn, true)); tl_do m (SchAObjectHandler cn)
+  done;
+  for c = 0 to n - 1 do
+    let cn = sch_nat_of_int c in
+    tl_do m (SchASetPaused (cn, false)); tl_do m (SchAObjectHandler cn)
+  done;
+  tl_cur := Some m;
+  tl_emit_to m sink
+
+let tl_step a sink =
+  match !tl_cur with
+  | None -> failwith "sch_tl_do without sch_tl_new"
+  | Some m ->
+    let c = num a "c" 0 in
+    let cn = sch_nat_of_int c in
+    (* a step of the script takes longer than one interval in real time (the harness watches the state for >= 150 ms, intervals
+       are <= 100 ms): whatever was re-keyed to "now + interval" before this step is due when it begins *)
+    tl_do m (SchATick (z_of_int (m.tiv + 1)));
+    let k = tl_ck m c in
+    let env en per = tl_do m (SchASetEnv (cn, en, per, k.sch_reach)) in
+    (match str a "op" "" with
+     | "force" -> tl_do m (SchASetForce (cn, true)); tl_do m (SchASetNext (cn, z_of_int (tl_clock m))); tl_do m (SchANextCheckChanged cn)
+     | "enable" -> env true k.sch_period
+     | "disable" -> env false k.sch_period
+     | "close" -> env k.sch_enable false
+     | "open" -> env k.sch_enable true
+     | "pause" -> if not k.sch_paused then begin tl_do m (SchASetPaused (cn, true)); tl_do m (SchAObjectHandler cn) end
+     | "resume" -> if k.sch_paused then begin tl_do m (SchASetPaused (cn, false)); tl_do m (SchAObjectHandler cn) end
+     | "resched" -> tl_do m (SchASetNext (cn, z_of_int (tl_clock m))); tl_do m (SchANextCheckChanged cn)
+     | "hold" -> m.tgate.(c) <- false
+     | "release" -> m.tgate.(c) <- true
+     | o -> failwith ("sch_tl_do: unknown op " ^ o));
+    tl_emit_to m sink
+
+let tl_end sink =
+  match !tl_cur with
+  | None -> failwith "sch_tl_end without sch_tl_new"
+  | Some m ->
+    (* the scheduler thread is stopped first (it finishes the dispatch it is in, if any), then every gate opens and what is in
+       flight finishes; nothing new is dispatched *)
+    let n = ref 0 in
+    while (match m.tst.sch_pc with SchSIdle -> false | _ -> true) do ignore (tl_progress m); incr n; if !n > 100 then failwith "tl: end" done;
+    Array.iteri (fun c _ -> m.tgate.(c) <- true) m.tgate;
+    while tl_progress_pool m do incr n; if !n > 5000 then failwith "tl: drain" done;
+    let b = Buffer.create 64 in
+    Buffer.add_string b (Printf.sprintf "tl end pcount=%d pend=%d" (int_of_z m.tst.sch_pcount) (List.length m.tst.sch_pend));
+    for c = 0 to m.tn - 1 do Buffer.add_string b (Printf.sprintf " c%d:s=%d,d=%d" c m.tstarts.(c) m.tdones.(c)) done;
+    sink (Buffer.contents b);
+    tl_cur := None
+
+let op_sch_tl_new a = tl_new a emit
+let op_sch_tl_do a = tl_step a emit
+let op_sch_tl_end _ = tl_end emit
 
 let ids_of s = if s = "-" || s = "" then [] else List.map int_of_string (String.split_on_char ',' s)
 let quiet_of s =
@@ -105,6 +283,12 @@ let oracle_run (a : args) trace =
   let spans : (int, (int * int) list) Hashtbl.t = Hashtbl.create 64 in (* c -> (start, end) *)
   let open_s : (int, int) Hashtbl.t = Hashtbl.create 64 in
   let nsnap = ref 0 and ncfg = ref 0 and lmax = ref 0 in
+  let lineno = ref 0 in
+  let fevs : (int, sch_fev list) Hashtbl.t = Hashtbl.create 64 in          (* c -> clears / ExecuteCheck entries, newest first *)
+  let deleted : (int, unit) Hashtbl.t = Hashtbl.create 64 in                (* checkables the driver deleted at some point of the run *)
+  let fev_add c e = Hashtbl.replace fevs c (e :: (try Hashtbl.find fevs c with Not_found -> [])) in
+  let req_idx : (int * int, int) Hashtbl.t = Hashtbl.create 64 in          (* (c, request time) -> line number of the request marker *)
+  let entry_idx : (int * int, int) Hashtbl.t = Hashtbl.create 256 in       (* (c, entry time) -> line number of the X record *)
   List.iter (fun l -> if String.length l > 2 && l.[0] = 'P' then incr nsnap) trace;
   let n_ck = ref 1 in
   List.iter (fun l -> match toks_of l with
@@ -118,9 +302,15 @@ let oracle_run (a : args) trace =
   let keep_every = max 1 ((!nsnap * !n_ck * !n_ck) / 40_000_000 + 1) in
   let si = ref 0 in
   List.iter (fun l ->
+    incr lineno;
     match toks_of l with
+    | ["Z"; _; c] -> Hashtbl.replace deleted (int_of_string c) ()
+    | ["C"; _; c] -> let c = int_of_string c in fev_add c (SchFClear (z_of_int c))
+    | ["R"; t; c; "0"] -> Hashtbl.replace req_idx (int_of_string c, int_of_string t) !lineno
     | "X" :: t :: c :: tid :: _ ->
       let t = int_of_string t and c = int_of_string c and tid = int_of_string tid in
+      fev_add c (SchFEnter (z_of_int c));
+      Hashtbl.replace entry_idx (c, t) !lineno;
       (match Hashtbl.find_opt pending_entry tid with
        | Some (c0, t0) -> returned := (c0, t0, t) :: !returned     (* the previous entry on this thread never started its command *)
        | None -> ());
@@ -206,13 +396,26 @@ let oracle_run (a : args) trace =
         let last = List.fold_left (fun acc (_, d) -> if !d < t0 then max acc !d else acc) (-1) xs in
         fail (Printf.sprintf "single-flight wedged c=%d ExecuteCheck entered at %d returned at the running guard although no execution was in flight (last result processing finished at %d)" c t0 last))
       (List.rev !returned);
+    (* where force_next_check is cleared: every clear is FOLLOWED by the ExecuteCheck it belongs to (extracted force oracle,
+       per checkable, on the complete run: the scheduler thread has been joined and the pool drained) *)
+    (* NOT for checkables that were deleted during the run: the entry of ExecuteCheck is observed through
+       OnLastCheckStartedChanged, and the generated NotifyLastCheckStarted emits only while the object IsActive().  A checkable
+       deactivated between its (forced) dispatch and the moment a pool thread runs the callback executes WITHOUT an entry
+       record (seen: thorough seed 1, c=197, clear at 1.8445 s, deleted at ~1.856 s, command started at 1.8807 s - a false
+       `forced' alarm of the first version of this rule). *)
+    Hashtbl.iter (fun c evs ->
+      if Hashtbl.mem deleted c then () else
+      match sch_force_oracle [z_of_int c] (List.rev evs) with
+      | Some _ -> fail (Printf.sprintf "forced clear-not-followed-by-execution c=%d: force_next_check was set to false and no ExecuteCheck of the checkable was entered afterwards (the consumed request got no dispatch of its own)" c)
+      | None -> ()) fevs;
     (* liveness, the timed reading of C04_progress_partial, decided from the snapshots only: the scheduler is STUCK if the
        same head of the next-check index (same object, same key) stays due with a free slot over more than delta.
        Whatever else delays a check - slots taken, earlier-due checkables, a saturated pool, a loaded machine - is not
        a violation.  The only legitimate wait in that situation is the scheduler's own 0.5 s condition-variable timeout
-       (a finishing task whose checkable was removed from pending does not notify), hence delta = 3 s + 10 * the largest
-       oversleep observed in this run.  W records (gaps between starts) are statistics only. *)
-    let delta = 3_000_000 + 10 * hiccup in
+       (a finishing task whose checkable was removed from pending does not notify) plus the time the scheduler thread needs
+       to get the CPU, hence delta = 2 s (four such timeouts) + 10 * the largest oversleep observed in this run.
+       W records (gaps between starts) are statistics only. *)
+    let delta = 2_000_000 + 10 * hiccup in
     let cur = ref None in
     List.iter (fun (t, _, hid, hkey, pc) ->
       if hid >= 0 && hkey < t - 1000 && pc < !maxc then begin
@@ -224,17 +427,27 @@ let oracle_run (a : args) trace =
       end else cur := None) (List.rev !snaps);
     (* forced requests: an unserved forced request is a violation only if the scheduler demonstrably served LATER-DUE work
        while the forced checkable sat in idle: a snapshot (atomic, under m_Mutex) that shows c in idle and a head of the
-       next-check index with a key beyond anything c's key can be (request time + Imax + dmax + margin) - impossible for
-       a scheduler that keys c by its next_check unless c was skipped and re-keyed. *)
+       next-check index with a key beyond anything c's key can be - impossible for a scheduler that keys c by its next_check
+       unless c was skipped and re-keyed.  The bound compares KEYS, not clock readings: after the request c's key is the
+       request time, or, when the request fell into a running check, the end of that run + one interval
+       (<= request + dmax + Imax); the only real-time quantity in it is the duration of that run, which a loaded machine
+       stretches (0.1 s + 10 * the largest oversleep observed). *)
     let snaps_fwd = List.rev !snaps in
     List.iter (function
       | c :: t :: until :: _ :: t2 :: imax :: _ ->
         let ss = try Hashtbl.find starts c with Not_found -> [] in
         let sp = try Hashtbl.find spans c with Not_found -> [] in
         let started = List.exists (fun s -> s >= t && s <= until) ss in
-        let running = List.exists (fun (s, e) -> s <= t && e >= t) sp || (match Hashtbl.find_opt open_s c with Some s -> s <= t | None -> false) in
+        ignore sp;
+        (* THE exception of C04_forced, and nothing wider: a dispatch that entered ExecuteCheck AFTER the request began (in the
+           order of the records, which is the order of their critical sections) and returned at the m_CheckRunning guard - the
+           request was absorbed by an execution in flight at that moment.  That the guard return itself was legitimate (an
+           execution really was in flight) is checked by the wedge rule above. *)
+        let ridx = try Hashtbl.find req_idx (c, t) with Not_found -> 0 in
+        let running = List.exists (fun (c0, t0, _) ->
+          c0 = c && t0 <= until && (match Hashtbl.find_opt entry_idx (c0, t0) with Some i -> i > ridx | None -> false)) !returned in
         if not (started || running) then begin
-          let kc_max = t2 + imax + !dmax + 1_000_000 + 10 * hiccup in
+          let kc_max = t2 + imax + !dmax + 100_000 + 10 * hiccup in
           let cs = string_of_int c in
           let hits = List.filter (fun (ts, idle, hid, hkey, _) ->
             ts > t2 && ts < until && hid >= 0 && hid <> c && hkey > kc_max && List.mem cs (String.split_on_char ',' idle)) snaps_fwd in
@@ -258,6 +471,8 @@ let oracle_c04 script trace =
     let execs = ref (List.filter (fun l -> String.length l > 5 && String.sub l 0 5 = "exec ") trace) in
     let fins = ref (List.filter (fun l -> String.length l > 4 && String.sub l 0 4 = "fin ") trace) in
     let inflight = ref false in
+    let tl_expect = ref [] and tl_max = ref 1 and tl_n = ref 0 and tl_seen = ref false in
+    let tl_sink l = tl_expect := l :: !tl_expect in
     let ci4 = ref 20 and ri4 = ref 4 in
     let tr = ref uncs and err = ref None in
     let fail m = if !err = None then err := Some m in
@@ -284,8 +499,24 @@ let oracle_c04 script trace =
          | l :: rest ->
            execs := rest;
            if has a "race" then inflight := false;
+           if String.length l > 12 && String.sub l 0 12 = "exec remote " then begin
+             (* C04_remote_releases_on_return on the implementation: every ExecuteCheck of a checkable with a command endpoint
+                gets as far as the remote branch - next_check = now + timeout + 30 (connected) / the "not connected" result
+                arrives (not connected); a call that came back from the guard shows neither *)
+             inflight := false;
+             let t = toks_of l in
+             (match tok_val t "conn", tok_val t "next", tok_val t "got" with
+              | Some "1", Some "900000", _ -> ()
+              | Some "0", _, Some "1" -> ()
+              | _ -> fail (Printf.sprintf "single-flight wedged: (%s) remote execution did not take place: [%s] (m_CheckRunning left set by the previous remote ExecuteCheck)" line l))
+           end else
            (match tok_val (toks_of l) "started" with
-            | Some "1" -> inflight := true
+            | Some "1" ->
+              (* C04_single_flight / C04_flag_until_result on the implementation: the command keeps its result (asynchronous);
+                 no result has been processed since it started, so ExecuteCheck must return at the guard *)
+              if !inflight then
+                fail (Printf.sprintf "single-flight second-start-while-running: (%s) started the command again although the previous execution has not delivered its result (m_CheckRunning released before the result was processed)" line);
+              inflight := true
             | Some "0" ->
               if not !inflight then
                 fail (Printf.sprintf "single-flight wedged: (%s) did not start the command although no execution is in flight (m_CheckRunning left set after a result was processed)" line)
@@ -313,7 +544,57 @@ let oracle_c04 script trace =
             | _ -> fail "crash malformed-pcr"))
       | Some ("sch_run", a) ->
         (match oracle_run a trace with Some m -> fail m | None -> ())
+      | Some ("sch_tl_new", a) -> tl_seen := true; tl_max := num a "max" 2; tl_n := num a "n" 1; (try tl_new a tl_sink with Failure m -> fail ("crash model: " ^ m))
+      | Some ("sch_tl_do", a) -> (try tl_step a tl_sink with Failure m -> fail ("crash model: " ^ m))
+      | Some ("sch_tl_end", _) -> (try tl_end tl_sink with Failure m -> fail ("crash model: " ^ m))
       | _ -> ()) script;
+    if !tl_seen then begin
+      tl_cur := None;
+      (* start/end of executions through the extracted oracle (single flight, concurrency limit); clears of force_next_check and
+         ExecuteCheck entries through the extracted force oracle (every clear is followed by the ExecuteCheck it belongs to) *)
+      let evs = ref [] and fevs = ref [] and nent = Hashtbl.create 8 and nstart = Hashtbl.create 8 in
+      List.iter (fun l -> match toks_of l with
+        | ["tlev"; "S"; c] -> evs := SchEvStart (z_of_int (int_of_string c)) :: !evs
+        | ["tlev"; "E"; c] -> evs := SchEvEnd (z_of_int (int_of_string c)) :: !evs
+        | ["tlev"; "C"; c] -> fevs := SchFClear (z_of_int (int_of_string c)) :: !fevs
+        | "tlev" :: "X" :: c :: _ -> fevs := SchFEnter (z_of_int (int_of_string c)) :: !fevs
+        | _ -> ()) trace;
+      ignore nent; ignore nstart;
+      (match sch_oracle (z_of_int !tl_max) (List.rev !evs) with
+       | Some (idx, code) -> fail (Printf.sprintf "%s max=%d event=%s (timeline)" (code_name (int_of_z code)) !tl_max (zs idx))
+       | None -> ());
+      let complete = List.exists (fun l -> String.length l >= 7 && String.sub l 0 7 = "tl end ") trace in
+      if complete then
+        (match sch_force_oracle (List.init !tl_n (fun c -> z_of_int c)) (List.rev !fevs) with
+         | Some c -> fail (Printf.sprintf "forced clear-not-followed-by-execution c=%s: force_next_check was cleared and no ExecuteCheck of the checkable was entered afterwards (timeline)" (zs c))
+         | None -> ());
+      (* line by line against what the model decided *)
+      let got = List.filter (fun l -> String.length l > 3 && String.sub l 0 3 = "tl ") trace in
+      let rec cmp i g e = match g, e with
+        | [], [] -> ()
+        | g0 :: gr, e0 :: er ->
+          if g0 = e0 then cmp (i + 1) gr er
+          else begin
+            (* classify by what differs: fewer starts than the model with the force flag gone = a forced request was lost *)
+            let field l c k = match List.find_opt (fun t -> String.length t > 3 && String.sub t 0 (String.length c + 1) = c ^ ":") (toks_of l) with
+              | Some t -> (match List.find_opt (fun kv -> String.length kv > String.length k && String.sub kv 0 (String.length k + 1) = k ^ "=")
+                                   (String.split_on_char ',' (String.sub t (String.length c + 1) (String.length t - String.length c - 1))) with
+                           | Some kv -> (try int_of_string (String.sub kv (String.length k + 1) (String.length kv - String.length k - 1)) with _ -> -1)
+                           | None -> -1)
+              | None -> -1 in
+            let cls = ref "timeline" in
+            for c = 0 to !tl_n - 1 do
+              let cn = "c" ^ string_of_int c in
+              let gs = field g0 cn "s" and es = field e0 cn "s" in
+              if gs >= 0 && es >= 0 && gs < es && !cls = "timeline" then cls := "forced execution-missing";
+              if gs >= 0 && es >= 0 && gs > es && !cls = "timeline" then cls := "single-flight extra-execution"
+            done;
+            fail (Printf.sprintf "%s step=%d implementation: [%s] model: [%s]" !cls i g0 e0)
+          end
+        | g0 :: _, [] -> fail (Printf.sprintf "timeline extra-line [%s]" g0)
+        | [], e0 :: _ -> fail (Printf.sprintf "crash timeline missing-line model: [%s]" e0) in
+      cmp 0 got (List.rev !tl_expect)
+    end;
     !err
 
 let () =
@@ -323,4 +604,8 @@ let () =
   register_op "sch_cr" op_sch_cr;
   register_op "sch_exec" op_sch_exec;
   register_op "sch_finish" op_sch_finish;
+  register_op "sch_tl_new" op_sch_tl_new;
+  register_op "sch_tl_do" op_sch_tl_do;
+  register_op "sch_tl_end" op_sch_tl_end;
+  register_case_end (fun () -> tl_cur := None);
   register_oracle "C04" oracle_c04
